@@ -106,7 +106,8 @@ def table_check(run, db, f, key):
     serr = f.aggregates(adt="CallResult", variant="SenderError")
     tout = f.aggregates(adt="CallResult", variant="Timeout")
     def on(e, lst):
-        return [x for x in lst if e and f.edge_dominates(e, x[0])]
+        # (plain dominance: the table entry built directly in the branch, not a later re-mapping of the recorded result)
+        return [x for x in lst if e and f.edge_dominates_plain(e, x[0])]
     n = 0
     for c in tos:
         for a in await_of_call(f, c):
